@@ -256,29 +256,11 @@ func c18Property(t *rapid.T, st *Stats) {
 		if mm.childCount[d] > 0 {
 			mm.childCount[d]--
 		}
-		crossTag := sj != ""  // tags of d are unspecified right after a subject annotation is added to it
-		crossSubj := tg != "" // and the other way round ("an existing descriptor will be updated")
+		// adding a tag to a digest keeps the referrers responses recorded under that digest and the other way round:
+		// "lookup by tag returns the last insertion for it" (the sweep after each step compares every tag and subject)
 		ix.AddDesc(desc, opts...)
 		if !c18Top(ix, d) {
 			fail("add-not-listed", "AddDesc(%s) did not leave a top-level entry", dn(d))
-		}
-		if crossTag {
-			for t2, td := range mm.tags {
-				if td == d {
-					if g, err := ix.GetDesc(t2); err != nil || g.Digest != d {
-						delete(mm.tags, t2)
-					}
-				}
-			}
-		}
-		if crossSubj {
-			for s2, sd := range mm.subj {
-				if sd == d {
-					if g, err := ix.GetByAnnotation(types.AnnotReferrerSubject, s2); err != nil || g.Digest != d {
-						delete(mm.subj, s2)
-					}
-				}
-			}
 		}
 	}
 	rm := func(t *rapid.T, ix *types.Index, mm *c18Model, record bool) {
